@@ -106,6 +106,10 @@ type DB struct {
 
 	blockWrites atomic.Int32
 	isClosed    atomic.Uint32
+	// sendLock is held shared by sendToWriteCh from its blockWrites check until the request is
+	// in writeCh. Whoever sets blockWrites takes it exclusively once afterwards (waitForSenders),
+	// so that no request which passed the check is still on its way to writeCh.
+	sendLock sync.RWMutex
 
 	// gcActive is set while a vlog GC rewrite (scan + write-back) is in flight,
 	// and gcDiscardTs records the DB's max version captured at its start. While
@@ -547,6 +551,9 @@ func (db *DB) close() (err error) {
 
 	db.blockWrites.Store(1)
 	db.isClosed.Store(1)
+	// Requests that passed the blockWrites check must be in writeCh before it is closed below;
+	// sending on the closed channel would panic.
+	db.waitForSenders()
 
 	if db.closers.valueGC != nil {
 		// Stop value GC first.
@@ -902,6 +909,8 @@ func (db *DB) writeRequests(reqs []*request) error {
 }
 
 func (db *DB) sendToWriteCh(entries []*Entry) (*request, error) {
+	db.sendLock.RLock()
+	defer db.sendLock.RUnlock()
 	if db.blockWrites.Load() == 1 {
 		return nil, ErrBlockedWrites
 	}
@@ -1677,11 +1686,25 @@ func (db *DB) Flatten(workers int) error {
 	}
 }
 
+// waitForSenders returns once every sendToWriteCh call that saw blockWrites == 0 has put its
+// request into writeCh. It must be called after blockWrites was set and while doWrites is still
+// draining writeCh.
+func (db *DB) waitForSenders() {
+	db.sendLock.Lock()
+	//nolint:staticcheck // empty critical section: the lock is only a barrier.
+	db.sendLock.Unlock()
+}
+
 func (db *DB) blockWrite() error {
 	// Stop accepting new writes.
 	if !db.blockWrites.CompareAndSwap(0, 1) {
 		return ErrBlockedWrites
 	}
+	// A request that passed the blockWrites check just before must reach writeCh before the
+	// writer is stopped. Otherwise it would sit in writeCh until writes are unblocked again,
+	// with its commit timestamp pending, and a read transaction started in between (DropPrefix
+	// starts one) would wait for that timestamp forever.
+	db.waitForSenders()
 
 	// Make all pending writes finish. The following will also close writeCh.
 	db.closers.writes.SignalAndWait()
